@@ -911,6 +911,7 @@ func (f *ndFunc) run() {
 	}
 
 	var record bool
+	var ownerCheck func(s *ndState, pos token.Pos, owner, label string)
 	var transferExpr func(s *ndState, n ast.Node)
 	handleCall := func(s *ndState, call *ast.CallExpr) {
 		// builtin copy(dst, src)
@@ -1127,6 +1128,17 @@ func (f *ndFunc) run() {
 				}
 			}
 		}
+		// an element handed to another function carries a flag that reflects its domain
+		if record && fn != nil {
+			for _, a := range call.Args {
+				if tv, ok := f.info.Types[a]; ok && hasIsNTT(tv.Type) && ndIsPathExpr(a) {
+					if ap, ok := f.path(a, 0); ok {
+						ownerTypes[ap] = tv.Type
+						ownerCheck(s, call.Pos(), ap, "arg:"+name)
+					}
+				}
+			}
+		}
 		// anything else: written arguments and the receiver become unknown
 		var sums []*fnSummary
 		resolved := false
@@ -1218,6 +1230,85 @@ func (f *ndFunc) run() {
 			outNames[sig.Params().At(i).Name()] = true
 		}
 	}
+	ownerCheck = func(s *ndState, pos token.Pos, owner, label string) {
+		if t, ok := ownerTypes[owner]; !ok || !hasIsNTT(t) {
+			return
+		}
+		flags := lookup(s, owner+".#")
+		for p, doms := range s.env {
+			if !strings.HasPrefix(p, owner+".Value") {
+				continue
+			}
+			decided := false
+			var bad [2]ndMember
+			isBad := false
+			for _, d := range doms {
+				if !ndFeasible(d, s.facts) {
+					continue
+				}
+				for _, g := range flags {
+					if !ndFeasible(g, s.facts) || !ndCompatible(d, g) {
+						continue
+					}
+					both := map[string]bool{}
+					for k, v := range s.facts {
+						both[k] = v
+					}
+					for _, m := range []ndMember{d, g} {
+						if m.facts != "" {
+							for _, kv := range strings.Split(m.facts, ";") {
+								both[kv[:len(kv)-2]] = kv[len(kv)-1] == '1'
+							}
+						}
+					}
+					rd, rg := ndResolve(d, both), ndResolve(g, both)
+					if rd == 0 && rg == 0 && d.kind == 'S' && g.kind == 'S' && d.sym == g.sym {
+						if d.sym != owner {
+							decided = true
+						}
+						continue
+					}
+					if rd == 0 || rg == 0 {
+						continue
+					}
+					decided = true
+					if rd != rg {
+						isBad = true
+						bad = [2]ndMember{d, g}
+					}
+				}
+			}
+			if !decided {
+				continue
+			}
+			key := fmt.Sprintf("NTTDOM:%s#%s(%s)", f.fkey, label, p)
+			dom := map[byte]string{'N': "NTT", 'C': "coefficient"}
+			if isBad {
+				if !f.seen[key+"!"] {
+					f.seen[key+"!"] = true
+					both := map[string]bool{}
+					for _, m := range []ndMember{bad[0], bad[1]} {
+						if m.facts != "" {
+							for _, kv := range strings.Split(m.facts, ";") {
+								both[kv[:len(kv)-2]] = kv[len(kv)-1] == '1'
+							}
+						}
+					}
+					for k, v := range s.facts {
+						both[k] = v
+					}
+					f.out = append(f.out, withProps(violOb("NTTDOM", key, f.c.Rel(pos),
+						fmt.Sprintf("%s %s with %s in the %s domain while %s.IsNTT says %s (on the path where %s)",
+							f.fkey, ndLabelVerb(label), p, dom[ndResolve(bad[0], both)], owner, dom[ndResolve(bad[1], both)], factsString(both))), bufProps(f.fkey)...))
+				}
+				continue
+			}
+			if !f.seen[key] && !f.seen[key+"!"] {
+				f.seen[key] = true
+				f.out = append(f.out, withProps(okOb("NTTDOM", key, f.c.Rel(pos), "the domain of the polynomial and the IsNTT flag of its owner agree on every decided path", true), bufProps(f.fkey)...))
+			}
+		}
+	}
 	exitCheck := func(s *ndState, ret *ast.ReturnStmt) {
 		owners := map[string]bool{}
 		for p := range s.env {
@@ -1231,83 +1322,7 @@ func (f *ndFunc) run() {
 			if !isParamRoot(owner) || !outNames[ndRoot(owner)] {
 				continue
 			}
-			if t, ok := ownerTypes[owner]; !ok || !hasIsNTT(t) {
-				continue
-			}
-			flags := lookup(s, owner+".#")
-			for p, doms := range s.env {
-				if !strings.HasPrefix(p, owner+".Value") {
-					continue
-				}
-				decided := false
-				var bad [2]ndMember
-				isBad := false
-				for _, d := range doms {
-					if !ndFeasible(d, s.facts) {
-						continue
-					}
-					for _, g := range flags {
-						if !ndFeasible(g, s.facts) || !ndCompatible(d, g) {
-							continue
-						}
-						both := map[string]bool{}
-						for k, v := range s.facts {
-							both[k] = v
-						}
-						for _, m := range []ndMember{d, g} {
-							if m.facts != "" {
-								for _, kv := range strings.Split(m.facts, ";") {
-									both[kv[:len(kv)-2]] = kv[len(kv)-1] == '1'
-								}
-							}
-						}
-						rd, rg := ndResolve(d, both), ndResolve(g, both)
-						if rd == 0 && rg == 0 && d.kind == 'S' && g.kind == 'S' && d.sym == g.sym {
-							if d.sym != owner {
-								decided = true
-							}
-							continue
-						}
-						if rd == 0 || rg == 0 {
-							continue
-						}
-						decided = true
-						if rd != rg {
-							isBad = true
-							bad = [2]ndMember{d, g}
-						}
-					}
-				}
-				if !decided {
-					continue
-				}
-				key := fmt.Sprintf("NTTDOM:%s#exit(%s)", f.fkey, p)
-				dom := map[byte]string{'N': "NTT", 'C': "coefficient"}
-				if isBad {
-					if !f.seen[key+"!"] {
-						f.seen[key+"!"] = true
-						both := map[string]bool{}
-						for _, m := range []ndMember{bad[0], bad[1]} {
-							if m.facts != "" {
-								for _, kv := range strings.Split(m.facts, ";") {
-									both[kv[:len(kv)-2]] = kv[len(kv)-1] == '1'
-								}
-							}
-						}
-						for k, v := range s.facts {
-							both[k] = v
-						}
-						f.out = append(f.out, withProps(violOb("NTTDOM", key, f.c.Rel(ret.Pos()),
-							fmt.Sprintf("%s returns with %s in the %s domain while %s.IsNTT says %s (on the path where %s)",
-								f.fkey, p, dom[ndResolve(bad[0], both)], owner, dom[ndResolve(bad[1], both)], factsString(both))), bufProps(f.fkey)...))
-					}
-					continue
-				}
-				if !f.seen[key] && !f.seen[key+"!"] {
-					f.seen[key] = true
-					f.out = append(f.out, withProps(okOb("NTTDOM", key, f.c.Rel(ret.Pos()), "on return the domain of the polynomial and the IsNTT flag of its owner agree on every decided path", true), bufProps(f.fkey)...))
-				}
-			}
+			ownerCheck(s, ret.Pos(), owner, "exit")
 		}
 	}
 	rangeVars := map[*ast.Ident]bool{}
@@ -1904,4 +1919,11 @@ func (f *ndFunc) mixCheck(s *ndState, call *ast.CallExpr, name string, exprs []a
 		f.seen[key] = true
 		f.out = append(f.out, withProps(okOb("NTTDOM", key, f.c.Rel(call.Pos()), "both inputs of the element-wise operation are in the same domain on every decided path", true), bufProps(f.fkey)...))
 	}
+}
+
+func ndLabelVerb(label string) string {
+	if label == "exit" {
+		return "returns"
+	}
+	return "passes the element to " + strings.TrimPrefix(label, "arg:")
 }
